@@ -129,6 +129,13 @@ theorem cache_bits_counts {st : State} (h : Inv st) {l w : ℕ} (h9 : 9 ≤ l) (
       · simp [PhiFacts.phi_zero_left]
       · rw [phi_eq_count (by omega), show 240 * w - 1 + 1 = 240 * w by omega]
 
+/-- every stored `bits` member of a sieved level fits `uint64_t` -/
+theorem cache_bits_fit_u64 {st : State} (h : Inv st) {l w : ℕ} (h9 : 9 ≤ l) (hl : l ≤ st.maxACached)
+    (hw : w < st.maxXSize) : bitsAt (st.sieve.getD l #[]) w < 2 ^ 64 := by
+  rcases h.rows with ⟨_, hm0⟩ | ⟨_, _, hrows⟩
+  · omega
+  · exact (hrows l h9 hl).lt w hw
+
 /-- the L2 constructor yields the geometry of the L1 model `phiCacheGeometry` -/
 theorem new_geometry_eq (a est : ℕ) :
     ((State.new a est).maxX, (State.new a est).maxA) = phiCacheGeometry a est := by
